@@ -1,0 +1,149 @@
+//! Hooks for property C28 (page resources hand out disjoint in-space pages with exact
+//! accounting): an event log of page grants and releases written by the page resources, and a
+//! read-only per-space view (address range / descriptor, reserved and committed counters).
+//!
+//! The log is off unless the harness switches it on.  Recording is a push to a leaf mutex (no
+//! other lock is ever taken while it is held), so it cannot change the behaviour or the lock
+//! order of the code it is called from.
+
+use crate::util::heap::pageresource::CommonPageResource;
+use crate::util::Address;
+use crate::vm::VMBinding;
+use std::sync::atomic::{AtomicBool, Ordering};
+use std::sync::Mutex;
+
+/// Pages handed out by a page resource (the result of `PageResource::get_new_pages`).
+pub const GRANT: u8 = 0;
+/// One earlier grant, identified by its first page, is returned (`pages` = its size).
+pub const RELEASE: u8 = 1;
+/// Every page of the page resource is returned (`MonotonePageResource::reset`).
+pub const RELEASE_ALL: u8 = 2;
+/// Every page at or above `start` (already page-aligned) is returned
+/// (`MonotonePageResource::reset_cursor`, contiguous).  `pages` = pages accounted as still in use.
+pub const TRUNCATE: u8 = 3;
+/// The pages in `[start, start + pages)` are returned (`RegionPageResource::reset_cursor`).
+pub const RELEASE_RANGE: u8 = 4;
+/// Address space (whole chunks) added to a free-list page resource.
+pub const GROW: u8 = 5;
+/// One chunk taken from the free list by the block layer of a `BlockPageResource`.
+pub const CHUNK: u8 = 6;
+/// The grant of `[start, start + pages)` just made by the inner monotone page resource of a
+/// `RegionPageResource` is a backing region, not pages handed to the space.
+pub const REGION_NEW: u8 = 7;
+/// Chunks returned by a discontiguous page resource to the global pool.
+pub const SHRINK: u8 = 8;
+/// `MonotonePageResource::reset_cursor` on a discontiguous resource: `start` = new cursor,
+/// `pages` = pages accounted as still in use.
+pub const TRUNCATE_DISCONTIGUOUS: u8 = 9;
+
+#[derive(Clone, Copy, Debug, PartialEq, Eq)]
+pub struct PageEvent {
+    /// Identity of the page resource: the address of its `CommonPageResource`.
+    pub pr: usize,
+    pub kind: u8,
+    pub start: usize,
+    pub pages: usize,
+    /// The thread was a GC worker (`true`) or any other thread (`false`).
+    pub in_gc_worker: bool,
+}
+
+static ENABLED: AtomicBool = AtomicBool::new(false);
+static LOG: Mutex<Vec<PageEvent>> = Mutex::new(Vec::new());
+
+/// Switch the event log on or off (off at start-up).
+pub fn enable(on: bool) {
+    ENABLED.store(on, Ordering::SeqCst);
+}
+
+/// Take the events recorded so far, in the order they were recorded.
+pub fn drain() -> Vec<PageEvent> {
+    let mut g = LOG.lock().unwrap_or_else(|p| p.into_inner());
+    std::mem::take(&mut *g)
+}
+
+pub(crate) fn log(common: &CommonPageResource, kind: u8, start: Address, pages: usize) {
+    if !ENABLED.load(Ordering::Relaxed) {
+        return;
+    }
+    let in_gc_worker = crate::scheduler::verif_current_worker_ordinal().is_some();
+    let mut g = LOG.lock().unwrap_or_else(|p| p.into_inner());
+    g.push(PageEvent {
+        pr: common as *const CommonPageResource as usize,
+        kind,
+        start: start.as_usize(),
+        pages,
+        in_gc_worker,
+    });
+}
+
+#[derive(Clone, Debug)]
+pub struct SpaceInfo {
+    pub name: &'static str,
+    /// Identity of the space's page resource (see [`PageEvent::pr`]).
+    pub pr: usize,
+    pub contiguous: bool,
+    /// Start and extent in bytes of a contiguous space (0, 0 for a discontiguous one).
+    pub start: usize,
+    pub extent: usize,
+    /// `PageResource::reserved_pages` / `committed_pages` (data pages only).
+    pub pr_reserved: usize,
+    pub pr_committed: usize,
+    /// `Space::reserved_pages` (data pages plus the estimate of side metadata pages).
+    pub space_reserved: usize,
+}
+
+/// One entry per space of the plan, in `for_each_space` order.
+pub fn spaces<VM: VMBinding>(mmtk: &crate::MMTK<VM>) -> Vec<SpaceInfo> {
+    let mut v = vec![];
+    mmtk.get_plan()
+        .for_each_space(&mut |s: &dyn crate::policy::space::Space<VM>| {
+            if has_no_page_resource(s.get_name()) {
+                return;
+            }
+            let pr = s.get_page_resource();
+            let c = s.common();
+            v.push(SpaceInfo {
+                name: s.get_name(),
+                pr: pr.common() as *const CommonPageResource as usize,
+                contiguous: c.contiguous,
+                start: if c.contiguous { c.start.as_usize() } else { 0 },
+                extent: if c.contiguous { c.extent } else { 0 },
+                pr_reserved: pr.reserved_pages(),
+                pr_committed: pr.committed_pages(),
+                space_reserved: s.reserved_pages(),
+            });
+        });
+    v
+}
+
+/// `Space::address_in_space(addr)` of the `index`-th space (in [`spaces`] order), and whether the
+/// VM map's descriptor for `addr` is that space's descriptor.
+pub fn owner_checks<VM: VMBinding>(
+    mmtk: &crate::MMTK<VM>,
+    index: usize,
+    addr: Address,
+) -> (bool, bool) {
+    let mut i = 0;
+    let mut r = (false, false);
+    mmtk.get_plan()
+        .for_each_space(&mut |s: &dyn crate::policy::space::Space<VM>| {
+            if has_no_page_resource(s.get_name()) {
+                return;
+            }
+            if i == index {
+                let c = s.common();
+                r = (
+                    s.address_in_space(addr),
+                    c.vm_map().get_descriptor_for_address(addr) == c.descriptor,
+                );
+            }
+            i += 1;
+        });
+    r
+}
+
+/// Spaces that have no page resource (`get_page_resource` / `common` are unreachable for them):
+/// they are left out of the per-space views.
+fn has_no_page_resource(name: &str) -> bool {
+    matches!(name, "MallocSpace" | "LockFreeImmortalSpace")
+}
